@@ -5,8 +5,8 @@ patch=$(readlink -f "$1"); id=$2; tier=${3:-quick}
 wt=/tmp/wt-seed-$$
 git -C /repo worktree add --detach "$wt" HEAD >/dev/null 2>&1 || exit 3
 if ! git -C "$wt" apply "$patch" 2>/dev/null && ! git -C "$wt" apply --3way "$patch"; then echo "PATCH DOES NOT APPLY"; git -C /repo worktree remove --force "$wt"; exit 3; fi
-cd /verif && VERIF_REPO="$wt" bin/check "$id" "$tier"; rc=$?
-for f in /verif/replays/$id-$tier-*.json; do [ -f "$f" ] && python3 - "$f" <<'P'
+V=${X_VERIF:-/verif}; cd $V && VERIF_REPO="$wt" bin/check "$id" "$tier"; rc=$?
+for f in $V/replays/$id-$tier-*.json; do [ -f "$f" ] && python3 - "$f" <<'P'
 import json,sys
 d=json.load(open(sys.argv[1]))
 print("  replay", sys.argv[1].split('/')[-1], "|", d.get('signature', 'no-failing-input'), "|", (d.get('what') or str(d.get('theorems_that_no_longer_check'))+str([x.get('what') for x in d.get('correspondence_that_no_longer_checks',[])][:3]))[:260])
